@@ -107,10 +107,26 @@ ensure_escaped([X | Y], Field) :-
   escaped_field([X | Y], Field).
 
 
+% A string field is written as text (not as a Prolog list); it is enclosed in double
+% quotes, with embedded quotes doubled (RFC 4180), when it contains the separator, a
+% double quote or a line break, or when it would otherwise be read back as a number.
+needs_quotes(Field, Opt) :-
+  option(token_separator(Tk_Sep), Opt),
+  (  member(C, Field),
+     ( C == Tk_Sep ; C == '"' ; C == '\n' ; C == '\r' )
+  ;  catch(number_chars(_, Field), _, false)
+  ),
+  !.
+
 write_field(Out, Field, Opt) :-
   ( Field \== [] ->
-    ensure_escaped(Field, Field0),
-    format(Out, "~w", [Field0])
+    ( Field = [_ | _] ->
+      ( needs_quotes(Field, Opt) ->
+        escaped_field(Field, Field0),
+        format(Out, "\"~s\"", [Field0])
+      ; format(Out, "~s", [Field]))
+    ; ensure_escaped(Field, Field0),
+      format(Out, "~w", [Field0]))
   ; option(null_value(Null_Value), Opt),
     ( Null_Value == empty -> true
     ; format(Out, "~w", [Null_Value]))).
